@@ -42,7 +42,11 @@ def setup_events(tc, with_e: bool, pop: str = "full") -> List[List]:
         if pop == "all-only" and s in ("L", "F"):
             continue  # nobody names FAILED_MESSAGE and no logger is connected: the only observer of notices is A (subscribed to everything)
         lg = 1 if s == "L" else 0
-        ev += [["conn", s], ev_send(s, fr(tc, P.MT_CONNECT_V2, P.p_connect_v2(lg, 0, 0, IDS[s], 0, s.encode()), src_mod_id=IDS[s])), ["settle"]]
+        if pop == "v1-logger" and s == "L":
+            # a logger that speaks the old handshake only: CONNECT with the logger flag, the id in the frame header
+            ev += [["conn", s], ev_send(s, fr(tc, P.MT_CONNECT, P.p_connect(1, 0), src_mod_id=IDS[s])), ["settle"]]
+        else:
+            ev += [["conn", s], ev_send(s, fr(tc, P.MT_CONNECT_V2, P.p_connect_v2(lg, 0, 0, IDS[s], 0, s.encode()), src_mod_id=IDS[s])), ["settle"]]
         for t in SUBS.get(s, []) + ([P.MT_CLIENT_INFO] if (pop == "info" and s in ("S1", "S2")) else []):
             if pop == "all-only" and t == P.MT_FAILED_MESSAGE:
                 continue
@@ -116,6 +120,11 @@ def scenarios(tier: str) -> List[Dict[str, Any]]:
                     for how in (("fin", "rst") if dead else ("-",)):
                         out.append(dict(tc=tc, grace=grace, flip=flip, label=label + "/observers-by-ALL-only", data=data.hex(), desc=dict(desc, multi=True), nw=nw, dead=dead, how=how,
                                         departure=False, pop="all-only"))
+        # the logger connected with the old handshake: it is waited for like any logger
+        for label, data, desc in kinds(tc)[:2]:
+            for nw in (["L"], ["L", "S1"], ["L", "A"]):
+                out.append(dict(tc=tc, grace=grace, flip=flip, label=label + "/v1-logger", data=data.hex(), desc=dict(desc, multi=True), nw=nw, dead=[], how="-",
+                                departure=False, pop="v1-logger"))
         # a message the manager originates itself (CLIENT_INFO after P's MODULE_READY / CLIENT_SET_NAME) cannot be delivered to
         # some of its subscribers; a second one follows (what one publication leaves behind must not leak into the next)
         infos = fr(tc, P.MT_MODULE_READY, P.P_READY.pack(4321), src_mod_id=IDS["P"])
@@ -235,6 +244,68 @@ def independent_oracle(sc, env, mark, waits, first_round, order) -> List[Dict[st
     return probs
 
 
+def periodic_case(args) -> Dict[str, Any]:
+    """the manager's own periodic reports (TIMING_MESSAGE, MESSAGE_TRAFFIC) and a subscriber that cannot take them: each report the
+    logger sees either reaches the subscriber or is answered by a notice naming subscriber and report type (no reference model)"""
+    tc, sub, traffic_first, nw = args
+    mmx.fresh_gc()
+    w = mmx.World(timecode=tc)
+    probs: List[Dict[str, Any]] = []
+    try:
+        def join(slot, hid, mid, logger=0, subs=()):
+            c = w.client(slot, hid).connect()
+            w.settle()
+            c.send(fr(tc, P.MT_CONNECT_V2, P.p_connect_v2(logger, 0, 0, mid, 0, slot.encode()), src_mod_id=mid))
+            w.settle()
+            for t in subs:
+                c.send(fr(tc, P.MT_SUBSCRIBE, P.p_sub(t), src_mod_id=mid))
+            w.settle()
+            return c
+
+        L = join("L", 1, 60, logger=1, subs=(ALL,))
+        F = join("F", 2, 90, subs=(P.MT_FAILED_MESSAGE,))
+        S = join("S", 3, 31, subs=(sub,))
+        Pp = join("P", 4, 21)
+        w.tick(1.05)
+        w.step()
+        w.settle()
+        for c in (L, F, S):
+            c.drain()
+        # the round under test
+        if traffic_first:
+            Pp.send(fr(tc, T, b"traffic", src_mod_id=21))
+        w.tick(1.05)
+        w.step(0, nonwritable=["S"] if nw else [])
+        w.settle()
+        if not w.alive:
+            probs.append({"prop": "C03", "kind": "manager-died", "detail": str((w.exit or ("", ""))[1])[:200]})
+        else:
+            seen_l = [P.normalize(f) for f in L.drain()]
+            got_s = [P.normalize(f) for f in S.drain()]
+            notices = [k for k in [P.normalize(f) for f in F.drain()] if k[0] == "failed" and k[1] == 31]
+            for kind, mt in (("timing", P.MT_TIMING_MESSAGE), ("traffic", P.MT_MESSAGE_TRAFFIC)):
+                if sub not in (mt, ALL):
+                    continue
+                published = sum(1 for k in seen_l if k[0] == kind)
+                delivered = sum(1 for k in got_s if k[0] == kind)
+                noticed = sum(1 for k in notices if k[2] == mt)
+                if published and delivered + noticed != published:
+                    probs.append({"prop": "C14", "kind": "report-neither-delivered-nor-noticed", "report": kind, "published": published, "delivered": delivered,
+                                  "notices_naming_the_subscriber": noticed})
+    finally:
+        w.stop()
+    return {"problems": probs, "rounds": w.rounds}
+
+
+def run_periodic_chunk(items):
+    return [periodic_case(a) for a in items]
+
+
+def periodic_cases(tier: str):
+    return [(tc, sub, tf, nw) for tc in ((False,) if tier == "quick" else (False, True)) for sub in (P.MT_TIMING_MESSAGE, P.MT_MESSAGE_TRAFFIC, ALL)
+            for tf in (False, True) for nw in (False, True)]
+
+
 def run_case(sc) -> List[Dict[str, Any]]:
     res = []
     k, n = 0, 1
@@ -262,6 +333,8 @@ def run(tier: str) -> int:
     scs = scenarios(tier)
     chunks = core.chunks(core.shuffled(scs, "c14"), 16)
     res = core.pmap(run_chunk, chunks)
+    pcs = periodic_cases(tier)
+    pres = core.pmap(run_periodic_chunk, core.chunks(pcs, 4))
     core.close_pool()
     flat = [s for ch in chunks for s in ch]
     i = 0
@@ -284,6 +357,13 @@ def run(tier: str) -> int:
                     chk.violation(f"{p['prop']}:{p['kind']}:{fk}", f"{sc['label']} nw={sc['nw']} dead={sc['dead']}/{sc['how']} order={r['order']}: {p}",
                                   {"module": "vf.checks.c14", "scenario": sc, "order": r["order"]},
                                   size=len(sc["nw"]) * 10 + len(sc["dead"]) * 10 + r["order"])
+    for a, r in zip(pcs, [r for ch in pres for r in ch]):
+        execs += 1
+        rounds += r["rounds"]
+        for p in r["problems"]:
+            chk.violation(f"{p['prop']}:{p['kind']}:periodic", f"periodic reports, subscriber of {a[1]} (traffic in the round: {a[2]}, not writable: {a[3]}): {p}",
+                          {"module": "vf.checks.c14", "periodic": list(a)}, size=30)
+    chk.count("periodic_report_cases", len(pcs))
     chk.sample({k: scs[0][k] for k in ("label", "nw", "dead", "how", "grace", "flip")})
     chk.sample({k: scs[len(scs) // 2][k] for k in ("label", "nw", "dead", "how", "grace", "flip")})
     chk.assumptions += ["virtual TCP model (vf.net)", "reference hub (vf/spec.py)"]
@@ -292,6 +372,12 @@ def run(tier: str) -> int:
 
 
 def replay(case) -> int:
+    if "periodic" in case:
+        r = periodic_case(tuple(case["periodic"]))
+        for p in r["problems"]:
+            print("  PROBLEM:", p)
+        print("reproduced" if r["problems"] else "NOT reproduced")
+        return 1 if r["problems"] else 0
     sc, order = case["scenario"], case["order"]
     r1 = execute((sc, order))
     r2 = execute((sc, order))
